@@ -882,6 +882,10 @@ pub trait StoreFor<T: Storable>: Configurable + private::StoreCallbacks<T> {
     /// This is a low-level API method. You usually don't want to call this directly.
     fn resolve_id(&self, id: &str) -> Result<T::HandleType, StamError> {
         if let Some(idmap) = self.idmap() {
+            //an item that explicitly carries this public ID always takes precedence
+            if let Some(handle) = idmap.data.get(id) {
+                return Ok(*handle);
+            }
             if idmap.resolve_temp_ids && id.starts_with(T::temp_id_prefix()) {
                 //a temporary ID only resolves to an existing item of this very type
                 if let Some(handle) = resolve_temp_id(id) {
@@ -890,14 +894,10 @@ pub trait StoreFor<T: Storable>: Configurable + private::StoreCallbacks<T> {
                     }
                 }
             }
-            if let Some(handle) = idmap.data.get(id) {
-                Ok(*handle)
-            } else {
-                Err(StamError::IdNotFoundError(
-                    id.to_string(),
-                    Self::store_typeinfo(),
-                ))
-            }
+            Err(StamError::IdNotFoundError(
+                id.to_string(),
+                Self::store_typeinfo(),
+            ))
         } else {
             Err(StamError::NoIdError(Self::store_typeinfo()))
         }
